@@ -36,6 +36,9 @@ def check(model, tier):
     from ..rules import merge as _merge
 
     _merge.r05_4_then(ctx, rule="R17.6")
+    from ..rules import sqlplace as _sqlplace2
+
+    _sqlplace2.r_inner_calculation_name(ctx, "R17.8")
     from ..rules.foundation import run_foundation
 
     run_foundation(ctx, "17")
